@@ -84,6 +84,19 @@ func c01Exec(c *pcase) (*core.Finding, bool) {
 	if f, in := c01ExecMode(c, true); f != nil {
 		return f, in
 	}
+	if c.P.Type == 1 && (c.P.Will != nil || c.P.HasUser || c.P.HasPass) {
+		// will, will delay and credentials set in the other orders
+		defer func() { bind.ConnectOrder = 0 }()
+		for o := 1; o < bind.NConnectOrders; o++ {
+			bind.ConnectOrder = o
+			if f, _ := c01ExecMode(c, false); f != nil {
+				f.Class += "/setter-order"
+				f.Detail = fmt.Sprintf("[will delay after SetWill: %v, credentials before the will: %v] %s", o&1 == 1, o&2 == 2, f.Detail)
+				bind.ConnectOrder = 0
+				return f, true
+			}
+		}
+	}
 	if c.P.Type == 3 {
 		// the four header setters of a PUBLISH in every order, before and
 		// after the other fields (what one setter does to the bits of
